@@ -385,16 +385,20 @@ impl Printable for ArgsDesc {
 
 		let start = LineNumber::new("args start line");
 		let end = LineNumber::new("args end line");
-		let multi_line = Rc::new(move |condition_context: &mut ConditionResolverContext| {
-			is_multiple_lines(condition_context, start, end)
-		});
-
 		let (children, end_comments) = children_between::<Arg>(
 			self.syntax().clone(),
 			self.l_paren_token().map(Into::into).as_ref(),
 			self.r_paren_token().map(Into::into).as_ref(),
 			None,
 		);
+		// Arguments after a `//` comment can't stay on its line
+		let multi_line: ConditionResolver = if children.iter().any(Child::has_inline_line_comment) {
+			true_resolver()
+		} else {
+			Rc::new(move |condition_context: &mut ConditionResolverContext| {
+				is_multiple_lines(condition_context, start, end)
+			})
+		};
 
 		let args_items = new_line_group(gen_args(children, multi_line.clone())).into_rc_path();
 		let args_indented = with_indent(pi!(@i; nl items(args_items.into())));
